@@ -86,6 +86,11 @@ class Check:
     # ---- finish
     def finish(self, level="model_checking", rule=None, extra=None):
         wall = time.time() - self.t0
+        import tla
+        if tla.SPURIOUS:
+            self.notes.append(f"{len(tla.SPURIOUS)} rejection(s) by TLC inside a concatenation of runs were not reproduced by a "
+                              f"fresh TLC process on the run alone and count as accepted (kept under out/spurious): "
+                              f"{tla.SPURIOUS[:5]}")
         cov = dict(states=max(self.states, 0), transitions=max(self.transitions, 0),
                    traces_validated_against_impl=self.traces, samples=self.samples or ["(none)"],
                    evaluations=self.evaluations, exhaustive=self.exhaustive, engines=self.engines)
